@@ -43,6 +43,12 @@ type E2EClient struct {
 	// StartUs: simulated pause before dialling (stream transport; the scenario
 	// guarantees that the service is still serving then: another connection is open)
 	StartUs int `json:"start_us,omitempty"`
+	// CloseTwice: the client closes its connection as soon as it is done, and
+	// then once more (a deferred Close after an explicit one); AfterClosed > 0:
+	// the client dials only when that many clients have closed that way. Whatever
+	// a closed connection gave back must not be shared by the connections made later.
+	CloseTwice  bool `json:"close_twice,omitempty"`
+	AfterClosed int  `json:"after_closed,omitempty"`
 }
 
 // E2ECall is one method call made through the client API.
@@ -208,6 +214,9 @@ func (s *E2EScenario) Setup(k *sim.Kernel) {
 			if cl.StartUs > 0 {
 				sim.Sleep(time.Duration(cl.StartUs) * time.Microsecond)
 			}
+			if cl.AfterClosed > 0 {
+				sim.Await(sim.Cond{Kind: sim.CondLogged, S1: "c.closedtwice", N: cl.AfterClosed})
+			}
 			conn, ep, err := dialClient(cl.Transport, network, addr, pipe)
 			if err != nil {
 				sim.Rec("c.dialfail", sp(ci))
@@ -353,6 +362,12 @@ func (s *E2EScenario) Setup(k *sim.Kernel) {
 				}
 			}
 			sim.Rec("c.done", sp(ci))
+			if cl.CloseTwice {
+				conn.Close()
+				conn.Close()
+				sim.Rec("c.closedtwice", sp(ci))
+				return
+			}
 			sim.Await(sim.Cond{Kind: sim.CondQuiescent})
 			conn.Close()
 		})
@@ -1234,7 +1249,28 @@ func genC02(seed uint64, tier string) Scenario {
 	// framing is about segmentation: always cut and coalesce
 	s.Config.Segmentation = 1 + g.IntN(2)
 	s.Config.ShortReads = 1 + g.IntN(2)
+	closeTwiceVariant(seed, s)
 	return s
+}
+
+// closeTwiceVariant: the first client closes its connection twice when it is
+// done, and only then do the others dial (a generator of its own: the scenarios
+// of the other seeds stay what they were).
+func closeTwiceVariant(seed uint64, s *E2EScenario) {
+	if NewGen(seed, 0xC105).IntN(10) != 0 || len(s.Clients) < 2 || s.ShutdownAfterEnters > 0 || s.Service.TimeoutNs != 0 || s.Clients[0].Transport != "stream" {
+		return
+	}
+	for _, sc := range s.Scripts {
+		for _, a := range sc.Actions {
+			if a.Op == "shutdown" || a.Op == "hold" || a.Op == "awaitev" {
+				return
+			}
+		}
+	}
+	s.Clients[0].CloseTwice = true
+	for i := 1; i < len(s.Clients); i++ {
+		s.Clients[i].AfterClosed = 1
+	}
 }
 
 func genC12(seed uint64, tier string) Scenario {
